@@ -6,6 +6,7 @@ pub mod evidence;
 pub mod gen;
 pub mod model;
 pub mod oracle;
+pub mod pipeprops;
 pub mod pipesim;
 pub mod props;
 pub mod report;
